@@ -637,7 +637,11 @@ class LiteralUnmarshaller(AbstractUnmarshaller[LiteralT], tp.Generic[LiteralT]):
     def __call__(self, val: tp.Any) -> LiteralT:
         if val in self.values:
             return val
-        decoded = serdes.load(val)
+        # The text of a bytes-like input is tested as the same text given as `str` would be.
+        text = serdes.decode(val)
+        if text in self.values:
+            return text
+        decoded = serdes.load(text)
         if decoded in self.values:
             return decoded  # type: ignore[return-value]
 
